@@ -21,35 +21,35 @@ EXTENDS Decoder
 (*   t  every text string in the item is valid UTF-8 (each chunk by itself, RFC 8949 3.2.3)         *)
 (*   n  some array or map in the item contains an indefinite-length array or map                    *)
 (*      (`inside`: the item at p itself sits below an array/map head)                               *)
-R(e, t, n) == [e |-> e, t |-> t, n |-> n]
+ScanR(e, t, n) == [e |-> e, t |-> t, n |-> n]
 RECURSIVE Scan(_, _, _), ScanItems(_, _, _, _, _), ScanIndef(_, _, _, _, _), ScanChunks(_, _, _, _)
-ScanItems(buf, p, k, t, n) == IF k = 0 THEN R(p, t, n) ELSE
+ScanItems(buf, p, k, t, n) == IF k = 0 THEN ScanR(p, t, n) ELSE
    LET r == Scan(buf, p, TRUE) IN
-   IF r.e < 0 THEN R(r.e, t, n) ELSE ScanItems(buf, r.e, k - 1, t /\ r.t, n \/ r.n)
+   IF r.e < 0 THEN ScanR(r.e, t, n) ELSE ScanItems(buf, r.e, k - 1, t /\ r.t, n \/ r.n)
 ScanIndef(buf, p, par, t, n) ==
    LET h == HeadAt(buf, p) IN
-   IF h.st = "eoi" THEN R(Trunc, t, n)
-   ELSE IF IsBreak(h) THEN R(IF par = 1 THEN Bad ELSE p + 1, t, n)
+   IF h.st = "eoi" THEN ScanR(Trunc, t, n)
+   ELSE IF IsBreak(h) THEN ScanR(IF par = 1 THEN Bad ELSE p + 1, t, n)
    ELSE LET r == Scan(buf, p, TRUE) IN
-        IF r.e < 0 THEN R(r.e, t, n) ELSE ScanIndef(buf, r.e, IF par = 2 THEN 2 ELSE 1 - par, t /\ r.t, n \/ r.n)
+        IF r.e < 0 THEN ScanR(r.e, t, n) ELSE ScanIndef(buf, r.e, IF par = 2 THEN 2 ELSE 1 - par, t /\ r.t, n \/ r.n)
 ScanChunks(buf, p, mj, t) ==
    LET h == HeadAt(buf, p) IN
-   IF h.st = "eoi" THEN R(Trunc, t, FALSE)
-   ELSE IF h.st = "bad" THEN R(Bad, t, FALSE)
-   ELSE IF IsBreak(h) THEN R(p + 1, t, FALSE)
-   ELSE IF h.major # mj \/ h.indef THEN R(Bad, t, FALSE)
-   ELSE IF ~IsSmall(h.arg) \/ p + h.hl + ToNat(h.arg) > Len(buf) THEN R(Trunc, t, FALSE)
+   IF h.st = "eoi" THEN ScanR(Trunc, t, FALSE)
+   ELSE IF h.st = "bad" THEN ScanR(Bad, t, FALSE)
+   ELSE IF IsBreak(h) THEN ScanR(p + 1, t, FALSE)
+   ELSE IF h.major # mj \/ h.indef THEN ScanR(Bad, t, FALSE)
+   ELSE IF ~IsSmall(h.arg) \/ p + h.hl + ToNat(h.arg) > Len(buf) THEN ScanR(Trunc, t, FALSE)
    ELSE ScanChunks(buf, p + h.hl + ToNat(h.arg), mj,
                    t /\ (mj = 2 \/ ValidUtf8(SubSeq(buf, p + h.hl + 1, p + h.hl + ToNat(h.arg)))))
 Scan(buf, p, inside) ==
    LET h == HeadAt(buf, p) IN
-   IF h.st = "eoi" THEN R(Trunc, TRUE, FALSE)
-   ELSE IF h.st = "bad" THEN R(Bad, TRUE, FALSE)
-   ELSE CASE h.major \in {0, 1} -> R(p + h.hl, TRUE, FALSE)
+   IF h.st = "eoi" THEN ScanR(Trunc, TRUE, FALSE)
+   ELSE IF h.st = "bad" THEN ScanR(Bad, TRUE, FALSE)
+   ELSE CASE h.major \in {0, 1} -> ScanR(p + h.hl, TRUE, FALSE)
           [] h.major \in {2, 3} ->
                IF h.indef THEN ScanChunks(buf, p + 1, h.major, TRUE)
-               ELSE IF ~IsSmall(h.arg) \/ p + h.hl + ToNat(h.arg) > Len(buf) THEN R(Trunc, TRUE, FALSE)
-               ELSE R(p + h.hl + ToNat(h.arg),
+               ELSE IF ~IsSmall(h.arg) \/ p + h.hl + ToNat(h.arg) > Len(buf) THEN ScanR(Trunc, TRUE, FALSE)
+               ELSE ScanR(p + h.hl + ToNat(h.arg),
                       h.major = 2 \/ ValidUtf8(SubSeq(buf, p + h.hl + 1, p + h.hl + ToNat(h.arg))), FALSE)
           [] h.major = 4 -> IF h.indef THEN ScanIndef(buf, p + 1, 2, TRUE, inside)
                             ELSE ScanItems(buf, p + h.hl, Cap(h.arg), TRUE, FALSE)
@@ -57,9 +57,9 @@ Scan(buf, p, inside) ==
                             ELSE ScanItems(buf, p + h.hl, 2 * Cap(h.arg), TRUE, FALSE)
           [] h.major = 6 -> Scan(buf, p + h.hl, inside)
           [] h.major = 7 ->
-               IF h.indef THEN R(Bad, TRUE, FALSE)
-               ELSE IF h.info = 24 /\ ToNat(h.arg) < 32 THEN R(Bad, TRUE, FALSE)
-               ELSE R(p + h.hl, TRUE, FALSE)
+               IF h.indef THEN ScanR(Bad, TRUE, FALSE)
+               ELSE IF h.info = 24 /\ ToNat(h.arg) < 32 THEN ScanR(Bad, TRUE, FALSE)
+               ELSE ScanR(p + h.hl, TRUE, FALSE)
 TextOK(buf, p) == Scan(buf, p, FALSE).t
 NestedIndef(buf, p, inside) == Scan(buf, p, inside).n
 
